@@ -442,6 +442,9 @@ def buffer_WriteTo {δ : Type} (write : δ → List UInt8 → M (Int × Option E
     if r.1 != len buf then return (r.1, io_ErrShortWrite, buf.drop r.1.toNat, r.2.2)
     return (r.1, none, [], r.2.2)
 
+/-- `out, err := aead.Open(nil, …)`: on failure Go's AEADs return nil together with the error -/
+def nilOnErr (r : List UInt8 × Option Err) : List UInt8 × Option Err := (if r.2 == none then r.1 else [], r.2)
+
 /-- a slice value stored where nil and empty are told apart (a nilable field): nil exactly when empty -/
 def nilIfEmpty {α : Type} (l : List α) : Option (List α) := if l.isEmpty then none else some l
 
